@@ -8,6 +8,7 @@ still-open findings; a new failing unit is not excluded and breaks the theorem).
 -/
 import Chokan.Lemmas.KanaAlpha
 import Chokan.Lemmas.KanaAlphaOrder
+import Chokan.Lemmas.KanaAlphaKata
 import Chokan.Lemmas.Romaji
 import Chokan.Gen.KnownFindings
 
@@ -124,5 +125,31 @@ theorem C17_units (s : Str) (hs : ∀ c ∈ s, Chokan.Gen.Romaji.clientClass c =
       rw [hr] at hp
       rw [convFuel_fuel (sortTable table) hira_nonempty (t.length + 1) (rest.length + 1) rest
         (by simp only [List.length_cons] at hp; omega) (Nat.lt_succ_self _)]
+
+theorem kata_table : kataTableOk (sortTable table) = true := by decide +kernel
+
+/-- **Katakana behaves as its hiragana**: replacing every hiragana of an in-class input by its katakana
+gives exactly the same result (string level, every length). -/
+theorem C17_katakana (s : Str) (hs : ∀ c ∈ s, Chokan.Gen.Romaji.clientClass c = true) :
+    serverConv (s.map toKata) = serverConv s :=
+  convert_toKata table kata_table single_kana s (fun c hc => (C17_okChar_class c).2 (hs c hc))
+
+/-- **NFD-decomposed input behaves as the composed input**, in hiragana and in katakana (the server
+normalises to NFC first; `nfdKana` is the canonical decomposition on the kana block). -/
+theorem C17_nfd (s : Str) (hs : ∀ c ∈ s, Chokan.Gen.Romaji.clientClass c = true) :
+    serverConv (nfdKana s) = serverConv s ∧ serverConv (nfdKana (s.map toKata)) = serverConv s := by
+  have hs' : ∀ c ∈ s, okChar c = true := fun c hc => (C17_okChar_class c).2 (hs c hc)
+  refine ⟨convert_nfd table s (fun c hc => okChar_isMark c (hs' c hc)), ?_⟩
+  rw [← C17_katakana s hs]
+  apply convert_nfd
+  intro c hc
+  obtain ⟨x, hx, rfl⟩ := List.mem_map.1 hc
+  have := toKata_not_mark x (hs' x hx)
+  simp only [isMark, Bool.or_eq_false_iff, nbeq_false]; exact this
+
+/-- Non-vacuity: がっこう in katakana and decomposed (カ+゛ ッ コ ウ) converts like the hiragana. -/
+example : nfdKana ([0x304C, 0x3063, 0x3053, 0x3046].map toKata) = [0x30AB, 0x3099, 0x30C3, 0x30B3, 0x30A6] ∧
+    serverConv [0x30AB, 0x3099, 0x30C3, 0x30B3, 0x30A6] = some [103, 97, 107, 107, 111, 117] := by
+  decide +kernel
 
 end Chokan.Props.C17
